@@ -36,14 +36,27 @@ class C01(object):
             "on unrelated distributions (base conversions in place / by copy / from_distribution, make_dense, "
             "make_sparse, item assignment, validate, printing) executed before the construction or between the "
             "construction and its observation (such cases run in a forked child so that the history is exactly what "
-            "the case says)") % ', '.join(MALFORMED)
+            "the case says); a further stream feeds the remaining legal argument shapes: the base left out (absent or "
+            "None: linear when the values are a linear pmf, else ditParams['base']) for valid tables and for "
+            "unnormalised / out-of-range ones, ScalarDistribution with a ScalarSampleSpace object in arbitrary order "
+            "(also constructed twice on the same object), the pmf-only form with a supplied sample space (list or "
+            "object, a superset of 0..k-1 in arbitrary order), and specifications with up to three "
+            "outcomes (two or more whenever the table has them) outside the supplied space (joint list / SampleSpace / "
+            "CartesianProduct, scalar list / object, pmf-only). On every accepted object has_outcome(o), has_outcome(o, null=False) and `o in d` are read for "
+            "every member of the sample space and for outsiders") % ', '.join(MALFORMED)
     tolerances = {'read-back of specified values': 'bit-exact (the float handed to the constructor)',
-                  'model values': 'exact for linear bases; log bases compared through b**v with rtol 1e-9'}
+                  'model values': 'exact for linear bases; log bases compared through b**v with rtol 1e-9',
+                  'base left out, malformed linear table': 'read as log values in ditParams[base]: a fault of that reading '
+                                                           '(total off 1, value above 1) is certain beyond 1e-3, allowed '
+                                                           'beyond 1e-9; the rejection must name an allowed kind',
+                  'has_outcome(o, null=False)': 'equals "lookup is not exactly the null probability"; not judged for '
+                                                'linear values in (0, 1e-8]'}
     exhaustive = {}
 
     # ------------------------------------------------------------------ generation
     def gen(self, rng, tier):
         n_valid, n_bad, n_obj = (260, 70, 300) if tier == 'quick' else (72000, 15000, 24000)
+        n_gap = 260 if tier == 'quick' else 16000
         if tier == 'thorough':
             for c in self.exhaustive_small():
                 yield c
@@ -66,6 +79,107 @@ class C01(object):
             self.decorate(c, rng)
             self.add_history(c, rng, p_hist=0.8)
             yield c
+        # legal argument shapes the streams above never produce (kept last: the streams above draw exactly the cases
+        # they drew before this one existed)
+        for _ in range(n_gap):
+            yield self.gap_case(rng)
+
+    # ---- argument shapes of the last stream
+    GAP_KINDS = ['omit-base', 'omit-base', 'omit-base-bad', 'scalar-object', 'scalar-object', 'scalar-pmf-space',
+                 'scalar-pmf-space', 'outsiders', 'outsiders', 'outsiders-scalar', 'outsiders-pmf']
+
+    def scalar_case(self, rng, min_support=1):
+        """A valid ScalarDistribution specification (sequence or dict form) with a supplied sample space: the outcomes and
+        possibly further members, in arbitrary order, handed over as a list or as a ScalarSampleSpace object."""
+        while True:
+            c = gen.rand_dist_case(rng, nmin=1, nmax=1, allow_space=False, allow_names=False)
+            if len(c['outs']) >= min_support:
+                break
+        self.decorate(c, rng)
+        if c['form'] == 'ndarray':          # decorate rewrote the table as the cells of an array: still a valid table
+            c['sparse'], c['trim'] = rng.random() < 0.6, rng.random() < 0.6
+        c['form'] = rng.choice(['scalar-seq', 'scalar-dict'])
+        c['names'] = None
+        extra = [[s] for s in range(8) if [s] not in c['outs']]
+        rng.shuffle(extra)
+        members = c['outs'] + extra[:rng.randint(0, 3)]
+        rng.shuffle(members)
+        c['space'], c['spacekind'] = ['list', members], 'list'
+        c['scalar_space'] = rng.choice(['object', 'object', 'list'])
+        return c
+
+    def pmf_space_case(self, rng):
+        """The pmf-only form of ScalarDistribution (outcomes 0..k-1) with a supplied sample space: a superset of 0..k-1
+        in arbitrary order.  (Spaces listing 0..k-1 out of increasing order used to fail - ScalarDistribution([.25, .75],
+        sample_space=[1, 0]) stored (0, 1) against the space (1, 0) - and were excluded until the repair 4245868.)"""
+        k = rng.randint(1, 5)
+        pv, style = gen.rand_prob_vector(rng, k)
+        members = [[i] for i in range(k)] + [[s] for s in rng.sample(range(k, 10), rng.randint(0, 3))]
+        rng.shuffle(members)
+        return {'klass': 'tuple', 'n': 1, 'alphabets': [list(range(k))], 'outs': [[i] for i in range(k)],
+                'pmf': [str(p) for p in pv], 'space': ['list', members], 'base': rng.choice(gen.BASES),
+                'sparse': rng.random() < 0.6, 'trim': rng.random() < 0.6, 'names': None, 'style': style,
+                'spacekind': 'list', 'form': 'scalar-pmf', 'bad': None,
+                'scalar_space': rng.choice(['object', 'list'])}
+
+    def break_outsiders(self, c, rng):
+        """Put as many specified outcomes as possible (up to three, at least one) outside the supplied sample space."""
+        sp, outs = c['space'], c['outs']
+        m = min(len(outs), rng.choice([2, 2, 3]))
+        if sp[0] == 'cart':
+            missing = [s for s in range(8) if s not in sp[1][0]]
+            c['outs'] = [[missing[j % len(missing)]] + outs[j][1:] for j in range(m)] + outs[m:]
+        else:
+            gone = outs[:m]
+            members = [o for o in sp[1] if o not in gone]
+            if not members:
+                members = [[(s + 1) % 8 for s in outs[0]]]
+            c['space'] = [sp[0], members]
+        c['bad'] = 'outsider'
+        return m
+
+    def gap_case(self, rng):
+        kind = rng.choice(self.GAP_KINDS)
+        if kind in ('omit-base', 'omit-base-bad'):
+            # `base` left out: "linear" when the values are a linear pmf, else ditParams['base'] (2 unless reconfigured)
+            c = gen.rand_dist_case(rng, nmin=1, nmax=3, bases=['linear', 2])
+            self.decorate(c, rng)
+            if kind == 'omit-base-bad':
+                if c['form'] == 'ndarray':
+                    # from_ndarray documents "None: assumed linear", the constructor it calls "None: ditParams['base']
+                    # unless a linear pmf": for a malformed array the two texts name different exceptions; not judged
+                    c['form'] = 'seq'
+                self.break_it(c, rng, kind=rng.choice(['unnormalised', 'out-of-range', 'out-of-range']))
+            elif c['form'] == 'ndarray':
+                c['base'] = 'linear'
+            c['omit_base'] = rng.choice(['absent', 'none'])
+        elif kind == 'scalar-object':
+            c = self.scalar_case(rng)
+            c['scalar_space'] = 'object'
+        elif kind == 'scalar-pmf-space':
+            c = self.pmf_space_case(rng)
+        elif kind == 'outsiders':
+            for _ in range(200):
+                c = gen.rand_dist_case(rng, nmin=1, nmax=3)
+                self.decorate(c, rng)
+                if c['space'] is not None and len(c['outs']) >= 2 and c['form'] in ('seq', 'dict'):
+                    break
+            else:
+                c['form'], c['space'], c['spacekind'] = 'seq', ['list', [list(o) for o in c['outs']]], 'list'
+            self.break_outsiders(c, rng)
+        elif kind == 'outsiders-scalar':
+            c = self.scalar_case(rng, min_support=2)
+            self.break_outsiders(c, rng)
+        else:
+            # pmf-only form, any flags, outsiders of any probability.  (Used to fail and was excluded until the repair
+            # 4245868: dense -> InvalidNormalization or acceptance, sparse + trim -> a null outsider was accepted.)
+            c = self.pmf_space_case(rng)
+            self.break_outsiders(c, rng)
+        self.add_history(c, rng, p_hist=0.3, p_prelude=0.08)
+        if kind == 'scalar-object' and rng.random() < 0.5:
+            c['rebuild'] = True
+        c['gap'] = kind
+        return c
 
     # ---- sample-space objects in arbitrary order
     @staticmethod
@@ -179,8 +293,8 @@ class C01(object):
             c['names'] = None
         c['bad'] = None
 
-    def break_it(self, c, rng):
-        kind = rng.choice(MALFORMED)
+    def break_it(self, c, rng, kind=None):
+        kind = kind or rng.choice(MALFORMED)
         pmf = [Fraction(p) for p in c['pmf']]
         if kind == 'unnormalised':
             delta = rng.choice([Fraction(1, 1000), Fraction(1, 10), Fraction(-1, 10)])
@@ -279,6 +393,14 @@ class C01(object):
             c = dict(case)
             c['prelude_when'] = 'before'
             yield c
+        if case.get('omit_base'):
+            c = dict(case)
+            c['omit_base'] = None
+            yield c
+        if case.get('scalar_space') == 'object':
+            c = dict(case)
+            c['scalar_space'] = 'list'
+            yield c
         sp = case.get('space')
         if sp is not None and sp[0] == 'cart' and any(list(a) != sorted(a) for a in sp[1]):
             c = dict(case)
@@ -297,6 +419,8 @@ class C01(object):
                 c['pmf'] = [str(p / tot) for p in rest]
                 yield c
         for key, val in (('base', 'linear'), ('space', None), ('sparse', True), ('trim', True), ('form', 'seq')):
+            if key == 'space' and case.get('bad') == 'outsider':
+                continue        # without the space the specification is no longer the malformed one it is labelled as
             if case.get(key) != val and not (key == 'form' and case['form'] in ('ndarray', 'scalar-pmf')):
                 c = dict(case)
                 c[key] = val
@@ -310,6 +434,16 @@ class C01(object):
         if sp is not None and sp[0] == 'cart' and case.get('spacevia') == 'from_outcomes' and not case.get('bad'):
             return dit.samplespace.CartesianProduct.from_outcomes([gen.to_py(o, case['klass']) for o in case['outs']])
         return gen.space_arg(case)
+
+    def scalar_space_obj(self, case):
+        """The sample_space argument of a ScalarDistribution: None, a list, or a ScalarSampleSpace object."""
+        sp = case.get('space')
+        if sp is None:
+            return None
+        members = [gen.to_py(o, case['klass'])[0] for o in sp[1]]
+        if case.get('scalar_space') == 'object':
+            return import_dit().samplespace.ScalarSampleSpace(members)
+        return members
 
     def py_spec(self, case):
         klass = case['klass']
@@ -418,11 +552,17 @@ class C01(object):
         if case.get('bad') == 'ragged':
             outs = [outs[0][:-1]] + outs[1:]
         kw = dict(base=base, sparse=case['sparse'], trim=case['trim'])
+        if case.get('omit_base') == 'absent':
+            del kw['base']
+        elif case.get('omit_base'):
+            kw['base'] = base = None
         scalar = form.startswith('scalar')
         if scalar:
             souts = [o[0] for o in outs]
             sp = case.get('space')
-            if sp is not None:
+            if space is not None:
+                kw['sample_space'] = space
+            elif sp is not None:
                 kw['sample_space'] = [gen.to_py(o, klass)[0] for o in sp[1]]
             if form == 'scalar-pmf':
                 d = dit.ScalarDistribution(vals, **kw)
@@ -438,7 +578,7 @@ class C01(object):
         if form == 'ndarray':
             shape = [len(a) for a in case['alphabets']]
             arr = np.array(vals, dtype=float).reshape(shape)
-            d = dit.Distribution.from_ndarray(arr, base=base)
+            d = dit.Distribution.from_ndarray(arr, **({} if case.get('omit_base') == 'absent' else {'base': base}))
         elif form == 'dict':
             if case.get('bad') == 'dict-and-pmf':
                 d = dit.Distribution(dict(zip(outs, vals)), vals, **kw)
@@ -509,10 +649,24 @@ class C01(object):
     def run_here(self, case, drv):
         dit = import_dit()
         r = core.Result()
+        omit = case.get('omit_base')
+        if omit and case['base'] != 'linear':
+            # log values without a base are documented to be read in ditParams['base']: the table is rendered in it
+            default = dit.ditParams['base']
+            if default != case['base']:
+                if default == 'linear' or default not in gen.BASE_ID:
+                    r.features = ['base-arg=%s' % omit, 'omitted-base: ditParams default %r is not modelled' % (default,)]
+                    return r
+                case = dict(case, base=default)
         r.site = 'Distribution.__init__' if not case['form'].startswith('scalar') else 'ScalarDistribution.__init__'
         klass = case['klass']
         bad = case.get('bad')
         r.features = gen.case_features(case) + ['form=%s' % case['form'], 'bad=%s' % bad]
+        r.features += ['base-arg=%s' % (omit or 'given')]
+        if case['form'].startswith('scalar') and case.get('space') is not None:
+            r.features.append('scalar-space=%s' % (case.get('scalar_space') or 'list'))
+        if case.get('gap'):
+            r.features.append('shape=%s' % case['gap'])
         sp0 = case.get('space')
         prelude = case.get('prelude') or []
         when = case.get('prelude_when', 'before')
@@ -539,7 +693,7 @@ class C01(object):
             return r
         hist_fail, hist_other = None, None
         try:
-            ss = self.space_obj(case) if not case['form'].startswith('scalar') else None
+            ss = self.space_obj(case) if not case['form'].startswith('scalar') else self.scalar_space_obj(case)
             hist_fail, hist_other = self.apply_history(case, ss, dit)
             d, vals = self.construct_py(case, ss)
         except Exception as e:  # noqa
@@ -552,7 +706,12 @@ class C01(object):
                                                     or any(Fraction(p) == 0 for p in case['pmf']))
 
         # ---------------- model
-        if bad in ('invalid-base', 'dict-and-pmf'):
+        # a malformed linear table without a base is documented to be read as log values in ditParams['base']: the
+        # faults of *that* reading are what the rejection has to name (from the definition, not from the model)
+        wants_nobase = None
+        if omit and base == 'linear' and bad in ('unnormalised', 'out-of-range'):
+            wants_nobase = self.faults_without_base(case, dit)
+        if bad in ('invalid-base', 'dict-and-pmf') or wants_nobase is not None:
             mo = None     # not part of the model: decided by the oracle alone
         else:
             args = gen.model_construct_args(case)
@@ -563,7 +722,8 @@ class C01(object):
                 if bad == 'empty-no-space':
                     args[2] = None
             elif case['form'] == 'scalar-pmf':
-                args[2] = ['list', case['outs']]
+                # a supplied space is sorted like in the other scalar forms; without one the outcomes 0..k-1 are the space
+                args[2] = ['ss', case['space'][1]] if case.get('space') else ['list', case['outs']]
             if bad == 'length-mismatch':
                 args[1] = args[1] + [args[1][-1]] if args[1] else [q(Fraction(1, 2))]
             if bad == 'ragged':
@@ -592,7 +752,12 @@ class C01(object):
                         'length-mismatch': 'InvalidDistribution', 'outsider': 'InvalidOutcome',
                         'invalid-base': 'InvalidBase', 'empty-no-space': 'InvalidDistribution',
                         'all-null-trimmed': 'InvalidNormalization'}.get(bad)
-                if want and en != want:
+                if wants_nobase is not None:
+                    r.features.append('omitted-base:faults=%s' % ('+'.join(sorted(wants_nobase[0])) if wants_nobase[1] else 'uncertain'))
+                    if wants_nobase[1] and en not in wants_nobase[0]:
+                        r.oracle_fail = ('malformed specification (%s, no base: read in base %r) raised %s; documented: %s'
+                                         % (bad, dit.ditParams['base'], en, ' or '.join(sorted(wants_nobase[0])) or 'accepted'))
+                elif want and en != want:
                     r.oracle_fail = 'malformed specification (%s) raised %s; documented: %s' % (bad, en, want)
             if mo is not None and not r.oracle_fail:
                 if mo[0] != 'err':
@@ -603,6 +768,10 @@ class C01(object):
 
         # ---------------- accepted
         if bad is not None:
+            if wants_nobase is not None and not (wants_nobase[1] and wants_nobase[0]):
+                # (does not happen with the generated tables) no decidable fault in the documented reading
+                r.features.append('omitted-base:faults=none-or-uncertain')
+                return r
             r.oracle_fail = 'a malformed specification (%s) was accepted' % bad
             r.detail = {'impl': 'accepted'}
             return r
@@ -646,8 +815,55 @@ class C01(object):
                 if f2:
                     fails = 'second construction on the same sample-space argument: ' + f2
                     r.detail['impl_second'] = py2
+        # ---------------- the same for a ScalarDistribution on the very same ScalarSampleSpace object (sorted in place by
+        # the first construction)
+        if not fails and case.get('rebuild') and scalar and case['form'] in ('scalar-seq', 'scalar-dict') \
+                and isinstance(ss, dit.samplespace.BaseSampleSpace):
+            outs2, vals2 = self.py_spec(case)
+            outs2, vals2 = [o[0] for o in outs2][::-1], vals2[::-1]
+            d2 = None
+            try:
+                d2 = dit.ScalarDistribution(outs2, vals2, sample_space=ss, base=base, sparse=case['sparse'],
+                                            trim=case['trim'])
+            except Exception as e:  # noqa
+                fails = ('second construction on the same sample-space argument: a valid specification was rejected '
+                         'with %s: %s' % (exc_enum(e), str(e)[:120]))
+            if d2 is not None:
+                py2 = self.obs_scalar(d2, klass)
+                if mo[0] == 'ok' and not r.mismatch:
+                    diff = gen.compare_obs(py2, gen.obs_model(mo[1]), exact=exact)
+                    if diff:
+                        r.mismatch = 'second construction on the same sample-space argument: ' + diff
+                f2 = self.judge(d2, case, vals, py2, dit)
+                if f2:
+                    fails = 'second construction on the same sample-space argument: ' + f2
+                    r.detail['impl_second'] = py2
         r.oracle_fail = fails
         return r
+
+    def faults_without_base(self, case, dit):
+        """(exception kinds the documented reading allows, is at least one fault certain?) for a table handed over without a
+        base whose values are not a linear pmf: it is read as log values in ditParams['base'] (b > 1 assumed: only then is
+        `value > 0` out of range).  A fault within a factor 1e-3 .. 1e-9 of its tolerance is allowed but not certain."""
+        b = dit.ditParams['base']
+        b = math.e if b == 'e' else b
+        if not isinstance(b, (int, float)) or not b > 1:
+            return set(), False
+        vals = [float(Fraction(p)) for p in case['pmf']]
+        if case.get('bad') == 'length-mismatch':
+            return set(), False
+        if abs(math.fsum(vals) - 1) <= 1e-4 and all(-1e-4 <= v <= 1 + 1e-4 for v in vals):
+            return set(), False         # (not generated) a linear pmf, or too close to one to say: read as linear
+        lin = [float(b) ** v for v in vals]
+        total = math.fsum(lin)
+        allowed, certain = set(), False
+        if abs(total - 1) > 1e-9:
+            allowed.add('InvalidNormalization')
+            certain = certain or abs(total - 1) > 1e-3
+        if any(x > 1 + 1e-9 for x in lin):
+            allowed.add('InvalidProbability')
+            certain = certain or any(x > 1 + 1e-3 for x in lin)
+        return allowed, certain
 
     def judge(self, d, case, vals, py, dit):
         """The statement on the real object `d` (observed as `py`); returns the violated clause or None."""
@@ -713,6 +929,35 @@ class C01(object):
                     pass
                 except Exception as e:  # noqa
                     fails = 'lookup of outsider 99 raised %s instead of InvalidOutcome' % type(e).__name__
+        if not fails:
+            # the boolean views of the same table: has_outcome(o) = membership in the sample space, has_outcome(o,
+            # null=False) = member whose lookup is not (exactly) the null probability, `o in d` = stored outcome
+            stored = set(tuple(o) for o, _ in py['tab'])
+            members = set(space)
+            cands = list(space) + [c for c in (tuple([9] * case['n']), tuple([9] * (case['n'] + 1))) if c not in members]
+            if space and not scalar:
+                m0 = tuple(space[0])
+                cands += [c for c in (m0[:-1], m0 + m0[-1:]) if c not in members]
+            for cand in cands:
+                if scalar and len(cand) != 1:
+                    continue
+                po = gen.to_py(list(cand), klass)
+                po = po[0] if scalar else po
+                try:
+                    got = (bool(d.has_outcome(po)), bool(d.has_outcome(po, null=False)), bool(po in d))
+                except Exception as e:  # noqa
+                    fails = 'has_outcome / membership of %r raised %s' % (po, type(e).__name__)
+                    break
+                inside = cand in members
+                want = (inside, inside and look[cand] != zero, cand in stored)
+                if inside and base == 'linear' and 0 < abs(look[cand]) <= 1e-8:
+                    # within the null tolerance the statement leaves open whether the value counts as null
+                    got = (got[0], want[1], got[2])
+                if got != want:
+                    fails = ('(has_outcome(o), has_outcome(o, null=False), o in d) for o = %r are %s; the table says %s '
+                             '(%s, lookup %r, %sstored)' % (po, got, want, 'member' if inside else 'outsider',
+                                                           look.get(cand), '' if cand in stored else 'not '))
+                    break
         if not fails:
             keys = [tuple(o) for o, _ in py['tab']]
             order = {o: i for i, o in enumerate(space)}
